@@ -41,6 +41,8 @@ def abstract_docs(hs, A, plans, tier, rng):
                 g = hs.Grid(version=ver, columns=[('v', []), ('w', [])])
                 g.extend([{'v': v, 'w': 'x'}, {'v': None, 'w': v}])
                 add({'t': 'scalar', 'kind': kind, 'payload': label, 'ver': ver}, [g])
+    for k, zg in enumerate(cat.zone_sweep(tier)):
+        add({'t': 'zones', 'kind': 'dt', 'payload': 'zone_sweep', 'ver': str(zg.version), 'n': k}, [zg])
     singles = [p for p in plans if p['t'] == 'single' and p['pos'] not in ('cell', 'cell_first', 'cell_last')]
     pairs = [p for p in plans if p['t'] == 'pair']
     rng.shuffle(singles); rng.shuffle(pairs)
